@@ -1146,6 +1146,11 @@ where
 
         // // AMQP map count includes both key and value, should be halfed
         // let count = count / 2;
+        // The count of a map covers keys and values: an odd count has a key without a value
+        if count % 2 != 0 {
+            return Err(Error::InvalidValue);
+        }
+
         visitor.visit_map(MapAccess::new(self, size, count))
     }
 
